@@ -790,6 +790,31 @@ func checkDuration(c DurCase) error {
 		if back != n {
 			return fmt.Errorf("{duration {durationformat %s}} = %q (through %q), want %s", n, back, text, n)
 		}
+	case "edge":
+		// single-unit texts around the largest duration rare can hold (about
+		// 292 years). Beyond it the documented answer is the error marker; a
+		// number is acceptable only if it is the exact number of seconds AND
+		// durationformat can say it back ("consistent").
+		got, err := eval("{duration {0}}", true, c.Text)
+		if err != nil {
+			return err
+		}
+		if isMarker(got) {
+			c.Obs.Label(true, "edge:error-marker")
+			return nil
+		}
+		want := strconv.FormatInt(c.N, 10)
+		if got != want {
+			return fmt.Errorf("{duration %s} = %q: neither an error marker nor the %s seconds the text denotes", c.Text, got, want)
+		}
+		text, err := eval("{durationformat {duration {0}}}", true, c.Text)
+		if err != nil {
+			return err
+		}
+		if v, ok := readHMS(text); !ok || v != c.N {
+			return fmt.Errorf("{duration %s} = %s, but {durationformat ..} of it prints %q, which does not read as %d seconds", c.Text, got, text, c.N)
+		}
+		c.Obs.Label(true, "edge:number")
 	case "parse":
 		want := strconv.FormatInt(c.N, 10)
 		got, err := eval("{duration {0}}", true, c.Text)
@@ -851,6 +876,26 @@ var (
 
 func genDuration(t *rapid.T) DurCase {
 	c := DurCase{Obs: pbt.NewObs()}
+	if rapid.IntRange(0, 7).Draw(t, "edge") == 0 {
+		// n units with n*unit within a few units of MaxInt64 nanoseconds (9223372036.85 s), or far beyond
+		c.Kind = "edge"
+		u := rapid.SampledFrom([]struct {
+			s    string
+			secs int64
+		}{{"h", 3600}, {"m", 60}, {"s", 1}}).Draw(t, "unit")
+		limit := int64(9223372036) / u.secs // largest whole count that still fits
+		n := limit + rapid.Int64Range(-3, 3).Draw(t, "around")
+		if rapid.IntRange(0, 3).Draw(t, "far") == 0 {
+			n = limit * rapid.Int64Range(2, 900).Draw(t, "times")
+		}
+		neg := rapid.IntRange(0, 3).Draw(t, "neg") == 0
+		c.N = n * u.secs
+		c.Text = strconv.FormatInt(n, 10) + u.s
+		if neg {
+			c.N, c.Text = -c.N, "-"+c.Text
+		}
+		return c
+	}
 	if rapid.Bool().Draw(t, "parse") {
 		c.Kind = "parse"
 		var sb strings.Builder
